@@ -66,21 +66,15 @@ def doDft (l : Line) : Option String := do
   let inShape := if inv then rshape.zipIdx.map fun (n, a) => if hc && a == last then hcLen n else n
                  else rshape
   let xs ← l.get? "x"
-  -- pyfftw with a real range and no halfcomplex: error, or (complementary shapes) a c2r run
-  let st := if inv then dftInverseStatus fftw real hc plus (rshape.getD last 1) else none
-  if let some (some e) := st then some e else
-  let hc := if st == some none then true else hc
   match num with
   | "x" =>
     let x ← parseCList xs
     if !checkShape rshape axes (Wavelet.prod rshape) || x.length ≠ Wavelet.prod inShape then none
     if inv then
-      match ← dftInverseNd exactRoots CRat.conj (fun z => ⟨z.re, 0⟩) fftw plus hc false rshape axes
-          x.toArray with
-      | .error e => some e
-      | .ok (sh, y) =>
-        let y := if real then y.map (fun z => (⟨z.re, 0⟩ : CRat)) else y
-        some s!"ok shape={showNatList sh} y={showCList y.toList}"
+      let (sh, y) ← dftInverseNd exactRoots CRat.conj (fun z => ⟨z.re, 0⟩) fftw plus hc rshape axes
+          x.toArray
+      let y := if real then y.map (fun z => (⟨z.re, 0⟩ : CRat)) else y
+      some s!"ok shape={showNatList sh} y={showCList y.toList}"
     else
       let (sh, y) ← dftForwardNd exactRoots fftw plus hc rshape axes x.toArray
       some s!"ok shape={showNatList sh} y={showCList y.toList}"
@@ -90,10 +84,9 @@ def doDft (l : Line) : Option String := do
     let out (sh : List Nat) (y : Array CF) :=
       s!"ok shape={showNatList sh} y={showList CF.str y.toList}"
     if inv then
-      match ← dftInverseNd floatRoots CF.conj (fun z => ⟨z.re, 0⟩) fftw plus hc false rshape axes
-          x.toArray with
-      | .error e => some e
-      | .ok (sh, y) => some (out sh (if real then y.map (fun z => (⟨z.re, 0⟩ : CF)) else y))
+      let (sh, y) ← dftInverseNd floatRoots CF.conj (fun z => ⟨z.re, 0⟩) fftw plus hc rshape axes
+          x.toArray
+      some (out sh (if real then y.map (fun z => (⟨z.re, 0⟩ : CF)) else y))
     else
       let (sh, y) ← dftForwardNd floatRoots fftw plus hc rshape axes x.toArray
       some (out sh y)
@@ -123,7 +116,7 @@ def doFt (l : Line) : Option String := do
     let n := rshape.getD a 1
     CF.ofReal (kernelAmp 1 (s.getD a 1) ((interpFreqs n (grid a).shape (shiftOf a)).point j))
   let fshape := rshape.zipIdx.map fun (n, a) => if hcOf a then hcLen n else n
-  let status := if inv then ftInverseStatus fftw realdom hc shifts
+  let status := if inv then ftInverseStatus hc shifts
                 else ftForwardStatus fftw realdom hc shifts
   match status with
   | some e => some e
@@ -135,10 +128,9 @@ def doFt (l : Line) : Option String := do
       s!"ok shape={showNatList sh} y={showList CF.str y.toList}"
     let re : CF → CF := fun z => ⟨z.re, 0⟩
     if inv then
-      match ← ftInverseNd floatRoots ePi CF.conj re amp c t plus hc realdom rshape axes shifts
-          x.toArray with
-      | .error e => some e
-      | .ok (sh, y) => some (out sh y)
+      let (sh, y) ← ftInverseNd floatRoots ePi CF.conj re amp c t plus hc realdom rshape axes shifts
+          x.toArray
+      some (out sh y)
     else
       let (sh, y) ← ftForwardNd floatRoots ePi re amp c t plus hc rshape axes shifts x.toArray
       some (out sh y)
@@ -193,12 +185,12 @@ array the transform produces -/
 def doDftRange (l : Line) : Option String := do
   let n ← l.nat? "n"; let c ← l.bool? "cplx"; let hc ← l.bool? "hc"
   if n = 0 then none
-  some s!"ok range={dftRangeLenCoded n hc} out={dftOutLen n c hc}"
+  some s!"ok range={dftRangeLen n c hc} out={dftOutLen n c hc}"
 
-/-- `plan real= hc= fresh= destroys=`: does the data survive FFTW planning in `pyfftw_call` -/
+/-- `plan fresh= destroys=`: does the data survive FFTW planning in `pyfftw_call` -/
 def doPlan (l : Line) : Option String := do
-  let r ← l.bool? "real"; let hc ← l.bool? "hc"; let f ← l.bool? "fresh"; let d ← l.bool? "destroys"
-  some s!"ok survives={if dataSurvivesPlanning r hc f d then 1 else 0}"
+  let f ← l.bool? "fresh"; let d ← l.bool? "destroys"
+  some s!"ok survives={if dataSurvivesPlanning f d then 1 else 0}"
 
 def handle (l : Line) : Option String :=
   match l.op with
